@@ -320,9 +320,11 @@ def apply_rubber_band(molecule, selector,
 
     coordinates = np.stack(coordinates)
     if np.any(np.isnan(coordinates)):
+        # Molecules usually carry their type in `meta`, not as an attribute.
+        moltype = getattr(molecule, 'moltype', None) or molecule.meta.get('moltype', 'molecule')
         LOGGER.warning("Found nan coordinates in molecule {}. "
                        "Will not generate an EN for it. ",
-                       molecule.moltype,
+                       moltype,
                        type='unmapped-atom')
         return
 
